@@ -4,7 +4,6 @@ package main
 
 import (
 	"fmt"
-	"go/ast"
 	"go/constant"
 	"go/token"
 	"go/types"
@@ -136,6 +135,10 @@ type Trans struct {
 	deferSites  []*deferSite
 	frames      []*Frame
 	rangeSets   []*MVar
+	rangeIntBound map[*MVar]string
+	noFrame bool
+	freshRefs map[string]bool
+	curBinds []*Val
 }
 
 type modLoc struct {
@@ -149,6 +152,7 @@ type localRef struct {
 	addr  *Addr
 	frame *Frame
 	obj   types.Object
+	alloc *ssa.Alloc
 }
 
 type loopOrigin struct {
@@ -157,6 +161,8 @@ type loopOrigin struct {
 	kind  string
 	key   string
 	pos   []token.Pos
+	jump  *MVar
+	jumpExpr string
 }
 
 func (tr *Trans) note(f string, a ...any) {
@@ -182,6 +188,38 @@ func (tr *Trans) freshConst(hint, sort string) string {
 }
 
 func (tr *Trans) sortOf(t types.Type) SortInfo { return tr.eng.sorts.sortOf(t) }
+
+// sel reads heap component comp at ref. Objects that existed before the current API call began
+// (ref <= epoch) live in an immutable "old" heap; newer objects in the mutable component variable.
+func (tr *Trans) sel(comp, sort, ref string) string {
+	return heapSel(tr.il, comp, sort, ref, false, nil)
+}
+
+func heapOldName(il *ILFunc, comp, sort string) string {
+	n := "|" + comp + "!old|"
+	il.declConst(n, sort)
+	return n
+}
+
+func heapSel(il *ILFunc, comp, sort, ref string, useOld bool, heapFn func(comp, sort string) string) string {
+	v := il.mvar(comp, sort)
+	v.Comp = comp
+	nw := cur(v)
+	if useOld {
+		nw = old(v)
+	}
+	if heapFn != nil {
+		nw = heapFn(comp, sort)
+	}
+	return fmt.Sprintf("(ite (<= %s epoch) (select %s %s) (select %s %s))", ref, heapOldName(il, comp, sort), ref, nw, ref)
+}
+
+// upd writes val at ref in the (new-object part of) component comp.
+func (tr *Trans) upd(comp, sort, ref, val string) {
+	hv := tr.heapVar(comp, sort)
+	tr.eng.recordWrite(tr.fn, comp)
+	tr.cur.assign(hv, fmt.Sprintf("(store %s %s %s)", cur(hv), ref, val))
+}
 
 func (tr *Trans) heapVar(comp, sort string) *MVar {
 	v := tr.il.mvar(comp, sort)
@@ -391,6 +429,14 @@ func (tr *Trans) materialize(a *Addr) string {
 			return a.Ref
 		}
 	}
+	if a.K == RGlobal && len(a.Path) == 0 {
+		c := "gaddr_" + sanitize(a.Var.Name)
+		if !tr.il.declSet["!"+c] {
+			tr.il.declSet["!"+c] = true
+			tr.il.Entry.assume(fmt.Sprintf("(<= %s %s)", c, old(tr.alloc)))
+		}
+		return c
+	}
 	tr.unsupported("address-materialized:" + fmt.Sprint(a.K))
 	// an uninterpreted but deterministic encoding: distinct fresh ref
 	return tr.freshConst("addr", "Int")
@@ -402,19 +448,19 @@ func (tr *Trans) loadRoot(a *Addr) string {
 		return cur(a.Var)
 	case RField:
 		comp, srt := tr.eng.sorts.fieldComp(a.StructT, a.Field)
-		return fmt.Sprintf("(select %s %s)", cur(tr.heapVar(comp, srt)), a.Ref)
+		return tr.sel(comp, srt, a.Ref)
 	case RElem:
 		comp, srt := tr.eng.sorts.elemComp(a.T)
-		return fmt.Sprintf("(select (select %s %s) %s)", cur(tr.heapVar(comp, srt)), a.Ref, a.Idx)
+		return fmt.Sprintf("(select %s %s)", tr.sel(comp, srt, a.Ref), a.Idx)
 	case RHeapCell:
 		comp, srt := tr.eng.sorts.cellComp(a.T)
-		return fmt.Sprintf("(select %s %s)", cur(tr.heapVar(comp, srt)), a.Ref)
+		return tr.sel(comp, srt, a.Ref)
 	case RWhole:
 		si := tr.eng.sorts.structInfo(a.StructT)
 		var fs []string
 		for i := range si.Fields {
 			comp, srt := tr.eng.sorts.fieldComp(a.StructT, i)
-			fs = append(fs, fmt.Sprintf("(select %s %s)", cur(tr.heapVar(comp, srt)), a.Ref))
+			fs = append(fs, tr.sel(comp, srt, a.Ref))
 		}
 		if len(fs) == 0 {
 			return "mk_" + si.Name
@@ -463,23 +509,23 @@ func (tr *Trans) store(a *Addr, val string, pos token.Pos) {
 	case RCell:
 		tr.cur.assign(a.Var, newRoot)
 	case RGlobal:
-		tr.checkWrite(a.Var.Name, "", pos, "global "+a.Var.Name)
+		tr.eng.recordWrite(tr.fn, a.Var.Name)
+		if !strings.HasPrefix(tr.name, "init") && !tr.modCoarse[a.Var.Name] {
+			tr.cur.assert("false", tr.ob("modifies", "global:"+a.Var.Name, pos, "package-level variable written outside init", tr.eng.propsFor(tr.name, "modifies-global")))
+		}
 		tr.cur.assign(a.Var, newRoot)
 	case RField:
 		comp, srt := tr.eng.sorts.fieldComp(a.StructT, a.Field)
-		hv := tr.heapVar(comp, srt)
 		tr.checkWrite(comp, a.Ref, pos, comp)
-		tr.cur.assign(hv, fmt.Sprintf("(store %s %s %s)", cur(hv), a.Ref, newRoot))
+		tr.upd(comp, srt, a.Ref, newRoot)
 	case RElem:
 		comp, srt := tr.eng.sorts.elemComp(a.T)
-		hv := tr.heapVar(comp, srt)
 		tr.checkWrite(comp, a.Ref, pos, comp)
-		tr.cur.assign(hv, fmt.Sprintf("(store %s %s (store (select %s %s) %s %s))", cur(hv), a.Ref, cur(hv), a.Ref, a.Idx, newRoot))
+		tr.upd(comp, srt, a.Ref, fmt.Sprintf("(store %s %s %s)", tr.sel(comp, srt, a.Ref), a.Idx, newRoot))
 	case RHeapCell:
 		comp, srt := tr.eng.sorts.cellComp(a.T)
-		hv := tr.heapVar(comp, srt)
 		tr.checkWrite(comp, a.Ref, pos, comp)
-		tr.cur.assign(hv, fmt.Sprintf("(store %s %s %s)", cur(hv), a.Ref, newRoot))
+		tr.upd(comp, srt, a.Ref, newRoot)
 	case RWhole:
 		si := tr.eng.sorts.structInfo(a.StructT)
 		// snapshot the value first (it may read the heap being updated)
@@ -487,9 +533,8 @@ func (tr *Trans) store(a *Addr, val string, pos token.Pos) {
 		tr.cur.assume(fmt.Sprintf("(= %s %s)", tmp, newRoot))
 		for i, f := range si.Fields {
 			comp, srt := tr.eng.sorts.fieldComp(a.StructT, i)
-			hv := tr.heapVar(comp, srt)
 			tr.checkWrite(comp, a.Ref, pos, comp)
-			tr.cur.assign(hv, fmt.Sprintf("(store %s %s (%s_%s %s))", cur(hv), a.Ref, si.Name, f.Name, tmp))
+			tr.upd(comp, srt, a.Ref, fmt.Sprintf("(%s_%s %s)", si.Name, f.Name, tmp))
 		}
 	}
 }
@@ -506,35 +551,33 @@ func (tr *Trans) havocAt(a *Addr, pos token.Pos) {
 	tr.store(a, c, pos)
 }
 
-// checkWrite emits a modifies obligation for a heap write if the function has a frame contract.
+// checkWrite emits the frame obligations of a heap write:
+//  modifies@comp : the written object was allocated during the current API call (ref > epoch), i.e. nothing the
+//                  caller of the API can see is mutated;
+//  frame@comp    : if the function declares a frame, the object is fresh since function entry or a declared location.
 func (tr *Trans) checkWrite(comp, ref string, pos token.Pos, detail string) {
 	tr.eng.recordWrite(tr.fn, comp)
-	if !tr.checkMod {
+	if ref == "" || tr.noFrame || tr.freshRefs[ref] {
+		return // writes to objects allocated by this very function body are trivially within every frame
+	}
+	tr.cur.assert(fmt.Sprintf("(> %s epoch)", ref), tr.ob("modifies", comp, pos, "write to "+detail+" must target an object allocated during this API call", tr.eng.propsFor(tr.name, "modifies")))
+	if !tr.checkMod || tr.modCoarse[comp] || tr.modCoarse["*"] {
 		return
 	}
-	if tr.modCoarse[comp] || tr.modCoarse["*"] {
-		return
-	}
-	var alts []string
-	if ref != "" {
-		alts = append(alts, fmt.Sprintf("(> %s %s)", ref, old(tr.alloc)))
-		for _, m := range tr.modSpecific {
-			if m.comp == comp {
-				alts = append(alts, fmt.Sprintf("(= %s %s)", ref, m.ref))
-			}
+	alts := []string{fmt.Sprintf("(> %s %s)", ref, old(tr.alloc))}
+	for _, m := range tr.modSpecific {
+		if m.comp == comp {
+			alts = append(alts, fmt.Sprintf("(= %s %s)", ref, m.ref))
 		}
 	}
-	cond := "false"
-	if len(alts) > 0 {
-		cond = "(or " + strings.Join(alts, " ") + " false)"
-	}
-	tr.cur.assert(cond, tr.ob("modifies", comp, pos, "write to "+detail+" must target a fresh object or a declared location", tr.eng.propsFor(tr.name, "modifies")))
+	tr.cur.assert("(or "+strings.Join(alts, " ")+")", tr.ob("frame", comp, pos, "write to "+detail+" must target a fresh object or a declared location", tr.eng.propsFor(tr.name, "frame")))
 }
 
 // ---- allocation ----
 
 func (tr *Trans) newRef(hint string) string {
 	r := tr.freshConst(hint, "Int")
+	tr.freshRefs[r] = true
 	tr.cur.assume(fmt.Sprintf("(> %s %s)", r, cur(tr.alloc)))
 	tr.cur.assign(tr.alloc, r)
 	return r
@@ -771,10 +814,8 @@ func (tr *Trans) instr(fr *Frame, ins ssa.Instruction) {
 		mi := tr.eng.sorts.mapInfo(x.Type())
 		dc, ds := mi.domComp()
 		lc, ls := mi.lenComp()
-		dv, lv := tr.heapVar(dc, ds), tr.heapVar(lc, ls)
-		tr.eng.recordWrite(tr.fn, dc)
-		tr.cur.assign(dv, fmt.Sprintf("(store %s %s ((as const (Array %s Bool)) false))", cur(dv), r, mi.KSort))
-		tr.cur.assign(lv, fmt.Sprintf("(store %s %s 0)", cur(lv), r))
+		tr.upd(dc, ds, r, fmt.Sprintf("((as const (Array %s Bool)) false)", mi.KSort))
+		tr.upd(lc, ls, r, "0")
 		tr.define(fr, x, r)
 	case *ssa.MakeSlice:
 		r := tr.newRef("mkslice")
@@ -782,9 +823,7 @@ func (tr *Trans) instr(fr *Frame, ins ssa.Instruction) {
 		tr.assertSafe("(>= "+ln+" 0)", "makeslice", x.Pos(), "make([]T, n) needs n >= 0")
 		et := x.Type().Underlying().(*types.Slice).Elem()
 		comp, srt := tr.eng.sorts.elemComp(et)
-		hv := tr.heapVar(comp, srt)
-		tr.eng.recordWrite(tr.fn, comp)
-		tr.cur.assign(hv, fmt.Sprintf("(store %s %s ((as const (Array Int %s)) %s))", cur(hv), r, tr.sortOf(et).Sort, tr.sortOf(et).Zero))
+		tr.upd(comp, srt, r, fmt.Sprintf("((as const (Array Int %s)) %s)", tr.sortOf(et).Sort, tr.sortOf(et).Zero))
 		tr.define(fr, x, fmt.Sprintf("(mk_slice %s %s)", r, ln))
 	case *ssa.MakeClosure:
 		fn := x.Fn.(*ssa.Function)
@@ -849,27 +888,7 @@ func (tr *Trans) instr(fr *Frame, ins ssa.Instruction) {
 }
 
 func (tr *Trans) debugRef(fr *Frame, x *ssa.DebugRef) {
-	if !x.IsAddr {
-		return
-	}
-	id, ok := x.Expr.(*ast.Ident)
-	if !ok {
-		return
-	}
-	obj := x.Object()
-	if obj == nil {
-		return
-	}
-	v := tr.val(fr, x.X)
-	if v.K != VAddr {
-		// escaped local: heap cell
-		if al, ok := x.X.(*ssa.Alloc); ok && v.K == VExpr {
-			t := al.Type().(*types.Pointer).Elem()
-			tr.recordLocal(id.Name, obj, &Addr{K: RHeapCell, Ref: v.E, T: t}, fr)
-		}
-		return
-	}
-	tr.recordLocal(id.Name, obj, v.Addr, fr)
+	// source names are bound through Alloc comments (recordLocalByAlloc)
 }
 
 func (tr *Trans) recordLocal(name string, obj types.Object, a *Addr, fr *Frame) {
@@ -892,9 +911,7 @@ func (tr *Trans) alloc_(fr *Frame, x *ssa.Alloc) {
 	if at, ok := t.Underlying().(*types.Array); ok {
 		r := tr.newRef("arr")
 		comp, srt := tr.eng.sorts.elemComp(at.Elem())
-		hv := tr.heapVar(comp, srt)
-		tr.eng.recordWrite(tr.fn, comp)
-		tr.cur.assign(hv, fmt.Sprintf("(store %s %s ((as const (Array Int %s)) %s))", cur(hv), r, tr.sortOf(at.Elem()).Sort, tr.sortOf(at.Elem()).Zero))
+		tr.upd(comp, srt, r, fmt.Sprintf("((as const (Array Int %s)) %s)", tr.sortOf(at.Elem()).Sort, tr.sortOf(at.Elem()).Zero))
 		fr.vals[x] = &Val{K: VExpr, E: r, T: x.Type()}
 		return
 	}
@@ -909,6 +926,11 @@ func (tr *Trans) alloc_(fr *Frame, x *ssa.Alloc) {
 		tr.cur.assign(v, si.Zero)
 		a := &Addr{K: RCell, Var: v, T: t}
 		fr.vals[x] = &Val{K: VAddr, Addr: a, T: x.Type()}
+		if x.Comment == "rangeint.iter" {
+			if b := tr.rangeIntBoundOf(fr, x); b != "" {
+				tr.rangeIntBound[v] = b
+			}
+		}
 		tr.recordLocalByAlloc(fr, x, a)
 		return
 	}
@@ -919,23 +941,35 @@ func (tr *Trans) alloc_(fr *Frame, x *ssa.Alloc) {
 		sinfo := tr.eng.sorts.structInfo(t)
 		for i, f := range sinfo.Fields {
 			comp, srt := tr.eng.sorts.fieldComp(t, i)
-			hv := tr.heapVar(comp, srt)
-			tr.eng.recordWrite(tr.fn, comp)
-			tr.cur.assign(hv, fmt.Sprintf("(store %s %s %s)", cur(hv), r, tr.sortOf(f.T).Zero))
+			tr.upd(comp, srt, r, tr.sortOf(f.T).Zero)
 		}
 		_ = a
 		fr.vals[x] = &Val{K: VExpr, E: r, T: x.Type()}
+		tr.recordLocalByAlloc(fr, x, &Addr{K: RWhole, Ref: r, StructT: t, T: t})
 		return
 	}
 	comp, srt := tr.eng.sorts.cellComp(t)
-	hv := tr.heapVar(comp, srt)
-	tr.eng.recordWrite(tr.fn, comp)
-	tr.cur.assign(hv, fmt.Sprintf("(store %s %s %s)", cur(hv), r, si.Zero))
+	tr.upd(comp, srt, r, si.Zero)
 	fr.vals[x] = &Val{K: VExpr, E: r, T: x.Type()}
+	tr.recordLocalByAlloc(fr, x, &Addr{K: RHeapCell, Ref: r, T: t})
 }
 
 func (tr *Trans) recordLocalByAlloc(fr *Frame, x *ssa.Alloc, a *Addr) {
-	// binding by name happens through DebugRef (IsAddr) instructions
+	name := x.Comment
+	if name == "" || strings.Contains(name, "$") || strings.Contains(name, ".") {
+		return
+	}
+	for _, l := range tr.localVar[name] {
+		if l.frame == fr && l.alloc == x {
+			return
+		}
+	}
+	pos := x.Pos()
+	if !pos.IsValid() {
+		// parameter copies have no position: they are declared at the function's position
+		pos = fr.fn.Pos()
+	}
+	tr.localVar[name] = append(tr.localVar[name], &localRef{name: name, pos: pos, addr: a, frame: fr, alloc: x})
 }
 
 // addrOf interprets a pointer-typed value as an address.
@@ -1173,8 +1207,8 @@ func (tr *Trans) lookup(fr *Frame, x *ssa.Lookup) {
 	m := tr.expr(v)
 	dc, ds := mi.domComp()
 	vc, vs := mi.valComp()
-	has := fmt.Sprintf("(select (select %s %s) %s)", cur(tr.heapVar(dc, ds)), m, k)
-	val := fmt.Sprintf("(ite %s (select (select %s %s) %s) %s)", has, cur(tr.heapVar(vc, vs)), m, k, mi.VZero)
+	has := fmt.Sprintf("(select %s %s)", tr.sel(dc, ds, m), k)
+	val := fmt.Sprintf("(ite %s (select %s %s) %s)", has, tr.sel(vc, vs, m), k, mi.VZero)
 	if x.CommaOk {
 		ok := tr.freshConst("ok", "Bool")
 		tr.cur.assume(fmt.Sprintf("(= %s %s)", ok, has))
@@ -1202,29 +1236,27 @@ func (tr *Trans) mapStore(mt types.Type, m, k, v string, pos token.Pos) {
 	dc, ds := mi.domComp()
 	vc, vs := mi.valComp()
 	lc, ls := mi.lenComp()
-	dv, vv, lv := tr.heapVar(dc, ds), tr.heapVar(vc, vs), tr.heapVar(lc, ls)
 	tr.checkWrite(dc, m, pos, "map "+mi.Name)
-	tr.eng.recordWrite(tr.fn, vc)
-	tr.eng.recordWrite(tr.fn, lc)
-	tr.cur.assign(lv, fmt.Sprintf("(store %s %s (ite (select (select %s %s) %s) (select %s %s) (+ (select %s %s) 1)))", cur(lv), m, cur(dv), m, k, cur(lv), m, cur(lv), m))
-	tr.cur.assign(dv, fmt.Sprintf("(store %s %s (store (select %s %s) %s true))", cur(dv), m, cur(dv), m, k))
-	tr.cur.assign(vv, fmt.Sprintf("(store %s %s (store (select %s %s) %s %s))", cur(vv), m, cur(vv), m, k, v))
+	tr.upd(lc, ls, m, fmt.Sprintf("(ite (select %s %s) %s (+ %s 1))", tr.sel(dc, ds, m), k, tr.sel(lc, ls, m), tr.sel(lc, ls, m)))
+	tr.upd(dc, ds, m, fmt.Sprintf("(store %s %s true)", tr.sel(dc, ds, m), k))
+	tr.upd(vc, vs, m, fmt.Sprintf("(store %s %s %s)", tr.sel(vc, vs, m), k, v))
 }
 
 func (tr *Trans) mapDelete(mt types.Type, m, k string, pos token.Pos) {
 	mi := tr.eng.sorts.mapInfo(mt)
 	dc, ds := mi.domComp()
 	lc, ls := mi.lenComp()
-	dv, lv := tr.heapVar(dc, ds), tr.heapVar(lc, ls)
 	// delete on a nil map is a no-op
 	tr.checkWriteGuarded(dc, m, "(not (= "+m+" 0))", pos, "map "+mi.Name)
-	tr.eng.recordWrite(tr.fn, lc)
-	tr.cur.assign(lv, fmt.Sprintf("(store %s %s (ite (select (select %s %s) %s) (- (select %s %s) 1) (select %s %s)))", cur(lv), m, cur(dv), m, k, cur(lv), m, cur(lv), m))
-	tr.cur.assign(dv, fmt.Sprintf("(store %s %s (store (select %s %s) %s false))", cur(dv), m, cur(dv), m, k))
+	tr.upd(lc, ls, m, fmt.Sprintf("(ite (select %s %s) (- %s 1) %s)", tr.sel(dc, ds, m), k, tr.sel(lc, ls, m), tr.sel(lc, ls, m)))
+	tr.upd(dc, ds, m, fmt.Sprintf("(store %s %s false)", tr.sel(dc, ds, m), k))
 }
 
 func (tr *Trans) checkWriteGuarded(comp, ref, guard string, pos token.Pos, detail string) {
-	tr.checkWrite(comp, ref, pos, detail)
+	// the write happens only under guard: weaken the reference to a trivially allowed one otherwise
+	r := tr.freshConst("gref", "Int")
+	tr.cur.assume(fmt.Sprintf("(= %s (ite %s %s (+ %s 1)))", r, guard, ref, cur(tr.alloc)))
+	tr.checkWrite(comp, r, pos, detail)
 }
 
 func (tr *Trans) makeInterface(fr *Frame, x *ssa.MakeInterface) {
@@ -1338,10 +1370,9 @@ func (tr *Trans) sliceInstr(fr *Frame, x *ssa.Slice) {
 		// offset slices: fresh view with copied elements (aliasing with the original is dropped)
 		r := tr.defineHavoc(fr, x)
 		comp, srt := tr.eng.sorts.elemComp(u.Elem())
-		hv := tr.heapVar(comp, srt)
 		q := tr.freshName("k")
-		tr.cur.assume(fmt.Sprintf("(and (= (s_len %s) (- %s %s)) (> (s_arr %s) 0) (forall ((%s Int)) (! (=> (and (<= 0 %s) (< %s (- %s %s))) (= (select (select %s (s_arr %s)) %s) (select (select %s (s_arr %s)) (+ %s %s)))) :pattern ((select (select %s (s_arr %s)) %s)))))",
-			r.E, hi, lo, r.E, q, q, q, hi, lo, cur(hv), r.E, q, cur(hv), s, q, lo, cur(hv), r.E, q))
+		tr.cur.assume(fmt.Sprintf("(and (= (s_len %s) (- %s %s)) (> (s_arr %s) 0) (forall ((%s Int)) (! (=> (and (<= 0 %s) (< %s (- %s %s))) (= (select %s %s) (select %s (+ %s %s)))) :pattern ((select %s %s)))))",
+			r.E, hi, lo, r.E, q, q, q, hi, lo, tr.sel(comp, srt, "(s_arr "+r.E+")"), q, tr.sel(comp, srt, "(s_arr "+s+")"), q, lo, tr.sel(comp, srt, "(s_arr "+r.E+")"), q))
 		tr.note("offset slice at %s modelled as a fresh view", tr.eng.fset.Position(x.Pos()))
 	case *types.Pointer: // pointer to array
 		at := u.Elem().Underlying().(*types.Array)
@@ -1408,7 +1439,7 @@ func (tr *Trans) nextInstr(fr *Frame, x *ssa.Next) {
 	dc, ds := mi.domComp()
 	vc, vs := mi.valComp()
 	lc, ls := mi.lenComp()
-	dom := fmt.Sprintf("(select %s %s)", cur(tr.heapVar(dc, ds)), m)
+	dom := tr.sel(dc, ds, m)
 	k := tr.freshConst("next_k", mi.KSort)
 	v := tr.freshConst("next_v", mi.VSort)
 	vis := it.Visited
@@ -1416,11 +1447,11 @@ func (tr *Trans) nextInstr(fr *Frame, x *ssa.Next) {
 	q := tr.freshName("k")
 	// ok  => k in dom, not yet visited, v = m[k]
 	// !ok => every key in dom has been visited (and count == len)
-	tr.cur.assume(fmt.Sprintf("(=> %s (and (select %s %s) (not (select %s %s)) (= %s (select (select %s %s) %s))))",
-		ok, dom, k, cur(vis), k, v, cur(tr.heapVar(vc, vs)), m, k))
-	tr.cur.assume(fmt.Sprintf("(=> (not %s) (and (forall ((%s %s)) (! (=> (select %s %s) (select %s %s)) :pattern ((select %s %s)))) (= %s (select %s %s))))",
-		ok, q, mi.KSort, dom, q, cur(vis), q, cur(vis), q, cur(cnt), cur(tr.heapVar(lc, ls)), m))
-	tr.cur.assume(fmt.Sprintf("(=> %s (< %s (select %s %s)))", ok, cur(cnt), cur(tr.heapVar(lc, ls)), m))
+	tr.cur.assume(fmt.Sprintf("(=> %s (and (select %s %s) (not (select %s %s)) (= %s (select %s %s))))",
+		ok, dom, k, cur(vis), k, v, tr.sel(vc, vs, m), k))
+	tr.cur.assume(fmt.Sprintf("(=> (not %s) (and (forall ((%s %s)) (! (=> (select %s %s) (select %s %s)) :pattern ((select %s %s)))) (= %s %s)))",
+		ok, q, mi.KSort, dom, q, cur(vis), q, cur(vis), q, cur(cnt), tr.sel(lc, ls, m)))
+	tr.cur.assume(fmt.Sprintf("(=> %s (< %s %s))", ok, cur(cnt), tr.sel(lc, ls, m)))
 	tr.cur.assign(vis, fmt.Sprintf("(ite %s (store %s %s true) %s)", ok, cur(vis), k, cur(vis)))
 	tr.cur.assign(cnt, fmt.Sprintf("(ite %s (+ %s 1) %s)", ok, cur(cnt), cur(cnt)))
 	kv := &Val{K: VExpr, E: k, T: mi.K}
@@ -1493,4 +1524,27 @@ func (tr *Trans) closureInCell(fr *Frame, addr ssa.Value) *Val {
 		}
 	}
 	return nil
+}
+
+// rangeIntBoundOf finds N in the lowering of "for i := range N": the hidden counter is compared
+// as (counter+1 < N) on the back edge and (0 < N) on entry. The resulting invariant is checked, not assumed.
+func (tr *Trans) rangeIntBoundOf(fr *Frame, al *ssa.Alloc) string {
+	for _, r := range *al.Referrers() {
+		ld, ok := r.(*ssa.UnOp)
+		if !ok || ld.Op != token.MUL {
+			continue
+		}
+		for _, r2 := range *ld.Referrers() {
+			add, ok := r2.(*ssa.BinOp)
+			if !ok || add.Op != token.ADD {
+				continue
+			}
+			for _, r3 := range *add.Referrers() {
+				if cmp, ok := r3.(*ssa.BinOp); ok && cmp.Op == token.LSS && cmp.X == add {
+					return tr.expr(tr.val(fr, cmp.Y))
+				}
+			}
+		}
+	}
+	return ""
 }
